@@ -359,6 +359,11 @@ func c15(r *mon.Run) {
 	calls := c06Calls(false, cbase)
 	calls = append(calls, gen.Func("sort_by", gen.Field("big"), gen.ExpRef(gen.Field("n"))), gen.Func("sort_by", gen.Field("big"), gen.ExpRef(gen.Field("s"))), gen.Func("sort", gen.Field("bign")), gen.Func("sort", gen.Field("bigs")),
 		gen.Func("max_by", gen.Field("big"), gen.ExpRef(gen.Field("n"))), gen.Func("min_by", gen.Field("big"), gen.ExpRef(gen.Field("n"))), gen.Func("reverse", gen.Field("big")), gen.Func("map", gen.ExpRef(gen.Field("n")), gen.Field("big")),
+		gen.Func("max_by", gen.LitJSON("[]"), gen.ExpRef(gen.Field("n"))), gen.Func("min_by", gen.Chain(gen.Field("ao"), gen.StFilter(gen.Cmp(">", gen.Field("n"), gen.LitJSON("99")))), gen.ExpRef(gen.Field("n"))), gen.Func("to_number", gen.Field("s")),
+		gen.Func("not_null", gen.Field("z"), gen.Field("z")), gen.Func("avg", gen.LitJSON("[]")),
+		// holes that are not calls: filters whose condition holds for null elements, projections that drop nulls
+		gen.Chain(gen.Field("am"), gen.StFilter(gen.Not(gen.Current()))), gen.Chain(gen.Field("am"), gen.StFilter(gen.Cmp("!=", gen.Current(), gen.LitJSON("1")))), gen.Chain(gen.Field("am"), gen.StListStar()),
+		gen.Chain(gen.LitJSON("[null, 1, null, 0, false]"), gen.StFilter(gen.Not(gen.Current()))), gen.Chain(gen.Field("ao"), gen.StFilter(gen.Cmp("!=", gen.Field("missing"), gen.LitJSON("true")))), gen.Chain(gen.Field("ao"), gen.StListStar(), gen.StField("missing")),
 		gen.Func("sort_by", gen.Field("sorted"), gen.ExpRef(gen.Field("n"))), gen.Func("values", gen.Field("o")), gen.Func("keys", gen.Field("o")), gen.Func("to_array", gen.Field("big")), gen.Func("not_null", gen.Field("z"), gen.Field("big")))
 	sel := []func(h *gen.Expr) *gen.Expr{
 		func(h *gen.Expr) *gen.Expr { return gen.Chain(h, gen.StIndex(0)) }, func(h *gen.Expr) *gen.Expr { return gen.Chain(h, gen.StIndex(-1)) },
@@ -376,6 +381,17 @@ func c15(r *mon.Run) {
 		func(h *gen.Expr) *gen.Expr {
 			return gen.Cmp("==", gen.Chain(h, gen.StIndex(-1)), gen.Chain(h, gen.StSliceS("", "", "-1"), gen.StIndex(0)))
 		},
+		// the same call at the head of every member of a multi-select (a multi-select on null is null - its members are not)
+		func(h *gen.Expr) *gen.Expr {
+			return gen.MultiList(gen.Chain(h, gen.StField("n")), gen.Chain(h, gen.StField("s")))
+		},
+		func(h *gen.Expr) *gen.Expr {
+			return gen.MultiHash([]gen.Key{{Name: "x"}, {Name: "y"}}, []*gen.Expr{gen.Chain(h, gen.StField("n")), gen.Chain(h, gen.StIndex(0))})
+		},
+		func(h *gen.Expr) *gen.Expr {
+			return gen.Func("length", gen.MultiList(gen.Chain(h, gen.StField("n")), gen.Chain(h, gen.StField("i")), gen.Chain(h, gen.StField("s"))))
+		},
+		func(h *gen.Expr) *gen.Expr { return gen.MultiList(h, h) },
 	}
 	behind := mon.Workload{Name: "substitution-under-a-selection", N: len(calls) * len(sel) * 2,
 		Do: func(i int, t *mon.Tally) {
